@@ -239,4 +239,136 @@ C16Case(P, sh, depth) ==
        [] sh = "long_names" -> std(<<w(<<F("LONGNAME_f", "LONGNAMEF", 1, "string", "one"), FRef("m", "m", 2, "message", "one", FN(P, "LONGNAME_M"))>>),
                                      Msg("LONGNAME_M", FN(P, "LONGNAME_M"), <<F("k", "k", 1, "string", "one")>>)>>)
 Params == {"plain", "mock", "json", "yaml", "source_relative"}
+
+(***************************************************************************)
+(* C13: each annotation on each cardinality it is accepted on, pairs of    *)
+(* annotations on one message, identifier shapes, several services.        *)
+(***************************************************************************)
+Int64Kinds == {"int64", "uint64", "sint64", "fixed64", "sfixed64"}
+\* one annotated field (feature, kind, cardinality); ref resolves message / enum kinds
+AField(P, feat, k, c, n, num) ==
+  LET ref == CASE k = "message" -> (IF feat = "ts" THEN "google.protobuf.Timestamp" ELSE FN(P, "Child"))
+               [] k = "enum" -> (IF feat = "enum_number" THEN FN(P, "P") ELSE FN(P, "E")) [] OTHER -> ""
+      base == IF c = "map" THEN FMap(n, n, num, "string", k, ref) ELSE FRef(n, n, num, k, c, ref)
+  IN CASE feat = "int64_number" -> Ann(base, "int64", "NUMBER")
+       [] feat = "int64_string" -> Ann(base, "int64", "STRING")
+       [] feat = "enum_custom"  -> base
+       [] feat = "enum_string"  -> Ann(base, "enumEnc", "STRING")
+       [] feat = "enum_number"  -> Ann(base, "enumEnc", "NUMBER")
+       [] feat = "nullable"     -> Ann(base, "nullable", TRUE)
+       [] feat = "empty_null"   -> Ann(base, "empty", "NULL")
+       [] feat = "empty_omit"   -> Ann(base, "empty", "OMIT")
+       [] feat = "ts"           -> Ann(base, "ts", "UNIX_MILLIS")
+       [] feat = "bytes"        -> Ann(base, "bytes", "HEX")
+       [] feat = "flatten"      -> Ann(base, "flatten", TRUE)
+       [] feat = "unwrap"       -> Ann(base, "unwrap", TRUE)
+       [] feat = "query"        -> Ann(base, "query", TRUE)
+       [] feat = "path"         -> base
+       [] feat = "plain"        -> base
+
+\* the (feature, kind, cardinality) combinations the documented rules accept
+C13Singles ==
+     {<<"int64_number", k, c>> : k \in Int64Kinds, c \in {"one", "opt", "rep", "map"}}
+  \cup {<<"int64_string", "int64", c>> : c \in {"one", "rep"}}
+  \cup {<<f, "enum", c>> : f \in {"enum_custom", "enum_string", "enum_number"}, c \in {"one", "opt", "rep", "map"}}
+  \cup {<<"nullable", k, "opt">> : k \in {"string", "int32", "int64", "uint32", "bool", "double", "float", "bytes", "enum"}}
+  \cup {<<f, "message", c>> : f \in {"empty_null", "empty_omit"}, c \in {"one", "opt"}}
+  \* (annotations on map values and flatten on a proto3-optional message are refused by the
+  \* generators as "wrong field type" / "oneof member": outside the accepted domain)
+  \cup {<<"ts", "message", c>> : c \in {"one", "opt", "rep"}}
+  \cup {<<"bytes", "bytes", c>> : c \in {"one", "opt", "rep"}}
+  \cup {<<"flatten", "message", "one">>}
+  \cup {<<"unwrap", k, c>> : k \in {"string", "int64", "message", "double"}, c \in {"rep", "map"}}
+  \cup {<<"query", k, c>> : k \in ScalarKinds \ {"bytes"}, c \in {"one", "opt", "rep"}}
+  \cup {<<"query", "enum", "one">>}
+  \cup {<<"path", k, "one">> : k \in PathKinds}
+  \cup {<<"plain", k, c>> : k \in {"string", "int32", "message", "enum", "bytes"}, c \in {"one", "opt", "rep", "map"}}
+
+C13SingleCase(P, t) ==
+  LET feat == t[1] k == t[2] c == t[3]
+      f == AField(P, feat, k, c, "a", 1)
+      w == IF feat = "unwrap" THEN Msg("W", FN(P, "W"), <<f>>)
+           ELSE Msg("W", FN(P, "W"), <<f, F("other_field", "otherField", 2, "string", "one")>>)
+      isUrl == feat \in {"query", "path"}
+      q == Msg("Q", FN(P, "Q"), <<f>>)
+      ms == IF isUrl
+            THEN <<Method("Get", FN(P, "Q"), FN(P, "Out"), TRUE,
+                          IF feat = "path" THEN Parts(TRUE, <<Lit("q"), Var("a")>>, FALSE) ELSE Parts(TRUE, <<Lit("q")>>, FALSE), "GET")>>
+            ELSE <<Method("Do", FN(P, "W"), FN(P, "W"), TRUE, Parts(TRUE, <<Lit("do")>>, FALSE), "POST")>>
+  IN Schema(<<File(P \o "/svc.proto", Pkg(P), GoPkg(P), TRUE, <<>>, <<Svc(P, ms)>>,
+                   <<Out(P), Child(P), Child2(P)>> \o (IF isUrl THEN <<q>> ELSE <<w>>), <<EnumE, EnumPlain>>)>>)
+
+\* two different codec features on one message (pairs containing flatten / oneof are refused by
+\* the generators with "only one MarshalJSON-generating feature" and are outside the domain)
+PairFeatures == {"int64_number", "nullable", "empty_null", "ts", "bytes", "enum_custom"}
+PairField(P, feat, n, num) ==
+  CASE feat = "int64_number" -> AField(P, feat, "int64", "one", n, num)
+    [] feat = "nullable"     -> AField(P, feat, "string", "opt", n, num)
+    [] feat = "empty_null"   -> AField(P, feat, "message", "one", n, num)
+    [] feat = "ts"           -> AField(P, feat, "message", "one", n, num)
+    [] feat = "bytes"        -> AField(P, feat, "bytes", "one", n, num)
+    [] feat = "enum_custom"  -> AField(P, feat, "enum", "one", n, num)
+C13Pairs == {<<a, b>> \in PairFeatures \X PairFeatures : a # b}
+C13PairCase(P, pr) ==
+  LET w == Msg("W", FN(P, "W"), <<PairField(P, pr[1], "a", 1), PairField(P, pr[2], "b", 2)>>)
+  IN Schema(<<File(P \o "/svc.proto", Pkg(P), GoPkg(P), TRUE, <<>>,
+                   <<Svc(P, <<Method("Do", FN(P, "W"), FN(P, "W"), TRUE, Parts(TRUE, <<Lit("do")>>, FALSE), "POST")>>)>>,
+                   <<Out(P), Child(P), w>>, <<EnumE, EnumPlain>>)>>)
+
+\* identifier shapes and service layouts
+C13Shapes == {"names", "keywords", "two_services_same_method", "two_services_headers", "no_services", "cross_file",
+              "nested_annotated", "oneof_members", "acronym_method"}
+C13ShapeCase(P, sh) ==
+  LET do(in, out) == Method("Do", in, out, TRUE, Parts(TRUE, <<Lit("do")>>, FALSE), "POST")
+      one(msgs, ms) == Schema(<<File(P \o "/svc.proto", Pkg(P), GoPkg(P), TRUE, <<>>, <<Svc(P, ms)>>, <<Out(P), Child(P), Child2(P)>> \o msgs, <<EnumE, EnumPlain>>)>>)
+  IN CASE sh = "names" ->
+            one(<<Msg("W", FN(P, "W"), <<Ann(F("user_id", "userId", 1, "int64", "one"), "int64", "NUMBER"),
+                                        Ann(F("userID2", "userID2", 2, "string", "opt"), "nullable", TRUE),
+                                        F("x2y_z", "x2yZ", 3, "string", "one"), F("_lead", "Lead", 4, "string", "one"),
+                                        F("HTTPStatus", "HTTPStatus", 5, "int32", "one")>>)>>, <<do(FN(P, "W"), FN(P, "W"))>>)
+       [] sh = "keywords" ->
+            one(<<Msg("W", FN(P, "W"), <<Ann(F("type", "type", 1, "string", "one"), "query", TRUE), Ann(F("func", "func", 2, "int32", "one"), "query", TRUE),
+                                        Ann(F("range", "range", 3, "string", "rep"), "query", TRUE), F("string", "string", 4, "string", "one"),
+                                        Ann(Ann(F("error", "error", 5, "int64", "one"), "int64", "NUMBER"), "query", TRUE)>>)>>,
+                <<Method("Get", FN(P, "W"), FN(P, "W"), TRUE, Parts(TRUE, <<Lit("k"), Var("string")>>, FALSE), "GET"),
+                  Method("Put", FN(P, "W"), FN(P, "W"), TRUE, Parts(TRUE, <<Lit("k"), Var("string")>>, FALSE), "PUT")>>)
+       [] sh = "two_services_same_method" ->
+            Schema(<<File(P \o "/svc.proto", Pkg(P), GoPkg(P), TRUE, <<>>,
+                          <<Svc(P, <<do(FN(P, "In"), FN(P, "Out"))>>),
+                            Service("Second", TRUE, Parts(TRUE, <<Lit("second")>>, FALSE), <<do(FN(P, "In"), FN(P, "Out"))>>)>>,
+                          <<In(P), Out(P)>>, <<>>)>>)
+       [] sh = "two_services_headers" ->
+            Schema(<<File(P \o "/svc.proto", Pkg(P), GoPkg(P), TRUE, <<>>,
+                          <<WithHeaders(Svc(P, <<MethodHeaders(do(FN(P, "In"), FN(P, "Out")), H3)>>), H3),
+                            WithHeaders(Service("Second", TRUE, Parts(TRUE, <<Lit("second")>>, FALSE),
+                                                <<MethodHeaders(Method("Other", FN(P, "In"), FN(P, "Out"), TRUE, Parts(TRUE, <<Lit("o")>>, FALSE), "GET"),
+                                                                <<Header("X-API-Key", "string", "", TRUE), Header("X-Request-ID", "string", "uuid", FALSE)>>)>>), H3)>>,
+                          <<Msg("In", FN(P, "In"), <<Ann(F("id", "id", 1, "string", "one"), "query", TRUE)>>), Out(P)>>, <<>>)>>)
+       [] sh = "no_services" ->
+            Schema(<<File(P \o "/svc.proto", Pkg(P), GoPkg(P), TRUE, <<>>, <<>>,
+                          <<Child(P), Msg("W", FN(P, "W"), <<Ann(F("n", "n", 1, "int64", "one"), "int64", "NUMBER"), FRef("e", "e", 2, "enum", "one", FN(P, "E"))>>),
+                            Msg("NotFoundError", FN(P, "NotFoundError"), <<F("resource", "resource", 1, "string", "one")>>)>>, <<EnumE>>)>>)
+       [] sh = "cross_file" ->
+            Schema(<<File(P \o "/types.proto", Pkg(P), GoPkg(P), TRUE, <<>>, <<>>,
+                          <<Child(P), Msg("W", FN(P, "W"), <<Ann(F("n", "n", 1, "int64", "one"), "int64", "NUMBER"), F("s", "s", 2, "string", "one")>>),
+                            Msg("Fl", FN(P, "Fl"), <<F("k", "k", 1, "string", "one"), Ann(FRef("c", "c", 2, "message", "one", FN(P, "Child")), "flatten", TRUE)>>)>>, <<EnumE>>),
+                     File(P \o "/svc.proto", Pkg(P), GoPkg(P), TRUE, <<P \o "/types.proto">>,
+                          <<Svc(P, <<do(FN(P, "W"), FN(P, "Holder"))>>)>>,
+                          <<Msg("Holder", FN(P, "Holder"), <<FRef("w", "w", 1, "message", "one", FN(P, "W")), FRef("e", "e", 2, "enum", "rep", FN(P, "E")),
+                                                           FRef("fl", "fl", 3, "message", "one", FN(P, "Fl"))>>)>>, <<>>)>>)
+       [] sh = "nested_annotated" ->
+            one(<<MsgN("W", FN(P, "W"), <<FRef("i", "i", 1, "message", "one", FN(P, "W") \o ".Inner")>>,
+                       <<Msg("Inner", FN(P, "W") \o ".Inner", <<Ann(F("n", "n", 1, "int64", "one"), "int64", "NUMBER"),
+                                                              F("s", "s", 2, "string", "one")>>)>>)>>, <<do(FN(P, "W"), FN(P, "W"))>>)
+       [] sh = "oneof_members" ->
+            one(<<MsgO("W", FN(P, "W"), <<InOneof(Ann(F("n", "n", 1, "int64", "one"), "int64", "NUMBER"), "o"),
+                                         InOneof(Ann(F("b", "b", 2, "bytes", "one"), "bytes", "HEX"), "o"),
+                                         InOneof(Ann(FRef("t", "t", 3, "message", "one", "google.protobuf.Timestamp"), "ts", "UNIX_SECONDS"), "o"),
+                                         InOneof(FRef("e", "e", 4, "enum", "one", FN(P, "E")), "o")>>, <<Oneof("o", FALSE, "", FALSE)>>)>>,
+                <<do(FN(P, "W"), FN(P, "W"))>>)
+       [] sh = "acronym_method" ->
+            one(<<Msg("W", FN(P, "W"), <<Ann(F("id", "id", 1, "string", "one"), "query", TRUE)>>)>>,
+                <<Method("GetHTTPStatus", FN(P, "W"), FN(P, "Out"), TRUE, Parts(TRUE, <<Lit("s")>>, FALSE), "GET"),
+                  Method("GetV2Item", FN(P, "W"), FN(P, "Out"), FALSE, NoParts, ""),
+                  Method("get_lower", FN(P, "W"), FN(P, "Out"), TRUE, Parts(TRUE, <<Lit("l")>>, FALSE), "DELETE")>>)
 =============================================================================
